@@ -80,7 +80,20 @@ RB_SEEDS = [
 RB_PRELUDE = """From Pegen Require Import Proofs.GenSem Proofs.CacheStable.
 Definition rb_ok (c : grammar * N) : bool :=
   match run_gen (fst c) (snd c) with inl m => reads_back_as (rules (fst c)) m && no_left_rec m && no_wi m | inr _ => false end.
+Definition rba_ok (c : grammar * N) : bool :=
+  match run_gen (fst c) (snd c) with inl m => reads_back_with_actions (rules (fst c)) m | inr _ => false end.
 """
+# shapes with explicit actions the action-aware end-to-end theorem must keep covering
+RBA_SEEDS = [
+    "start: a=NAME b=NUMBER NEWLINE { foo(a, b) } | (x=NUMBER { [x] }) NEWLINE\n",
+    "start: (a=NAME { foo(a) }) NEWLINE\n",
+    "start: NAME NAME { (name, name_1) } | NUMBER\n",
+    "start: p ';' q NEWLINE\np: '<' (a=NAME ',' b=NAME { foo(a) }) '>'\nq: '<' (a=NAME ',' b=NAME { foo(b) }) '>'\n",
+    "start: (NAME | NUMBER) (x=NAME { foo(x) } | y=NUMBER { foo(y, y) }) NEWLINE\n",
+    "start: 'v' a=','.(x=NAME '=' y=NUMBER { foo(x) })+ NEWLINE | 'w' b=','.(x=NAME '=' y=NUMBER { foo(y) })+ NEWLINE\n",
+    "start: p ';' q NEWLINE\np: (x=NAME y=NUMBER { foo(x) })+\nq: (x=NAME y=NUMBER { foo(y) })+\n",
+    "start: NAME NAME NAME NAME NEWLINE | NUMBER NUMBER NUMBER { foo(number, number_1, number_2) }\n",
+]
 
 
 def rb_term(text: str) -> str | None:
@@ -274,14 +287,14 @@ def run(chk: common.Check, tier: str):
     kn = gramgen.Knobs(terminals=("NAME", "NUMBER", "'+'", "','", "'if'", '"in"', "NEWLINE"), left_rec=False,
                        lookahead_terminals_only=True, p_ref=0.35,
                        action_pool=("[x, y]", "(x, 1)", "'lit'", "foo(x)", "foo()", "(name, 2)", "[literal]"))
-    texts = [t for t in SEEDS + RB_SEEDS]
+    texts = [t for t in SEEDS + RB_SEEDS + [x for x in RBA_SEEDS if x not in SEEDS]]
     want = 60 if tier == "quick" else 800
     tries = 0
     for t in gramgen.gen_grammars(r, kn, want * 12):
         tries += 1
         if well_formed(t):
             texts.append(t)
-            if len(texts) >= want + len(SEEDS) + len(RB_SEEDS):
+            if len(texts) >= want + len(SEEDS) + len(RB_SEEDS) + len(RBA_SEEDS):
                 break
     # a second family over the less common token kinds (SOFT_KEYWORD, STRING, OP) and both keyword styles
     import dataclasses
@@ -368,12 +381,24 @@ def run(chk: common.Check, tier: str):
         chk.oblige(f"correspondence K-gen on the grammars of the end-to-end theorem: Gen/Render.v over the generator model's IR equals "
                    f"the real generator's output text on {len(kcases)} action-free grammars (the RB_SEEDS floor and explored ones)",
                    not badk, json.dumps(badk[:5]))
+    floor2 = [rb_term(t) for t in RBA_SEEDS]
+    bad2 = common.run_cases(chk, "rba_floor", prelude + RB_PRELUDE, "(grammar * N)", [x for x in floor2 if x], "rba_ok", shard=4, timeout=600)
+    if bad2 is not None:
+        chk.oblige("instance condition of C01_generated_parser_implements_the_source_grammar_with_explicit_actions: "
+                   f"reads_back_with_actions (rules g) (generate g) = true for the {len(RBA_SEEDS)} shapes of RBA_SEEDS (actions over named "
+                   "items, in groups, in repetition and gather bodies, over default and repeated names)",
+                   not bad2 and all(floor2), json.dumps([RBA_SEEDS[i] for i in bad2]))
     rnd = [(t, rb_term(t)) for t in texts if t not in RB_SEEDS]
     rnd = [(t, x) for t, x in rnd if x]
     bad = common.run_cases(chk, "rb_rnd", prelude + RB_PRELUDE, "(grammar * N)", [x for _, x in rnd], "rb_ok", shard=40, timeout=900)
     if bad is not None:
         chk.bump("explored grammars", len(rnd))
         chk.bump("explored grammars inside the class of the end-to-end theorem (reads_back_as = true)", len(rnd) - len(bad))
+        bad3 = common.run_cases(chk, "rba_rnd", prelude + RB_PRELUDE, "(grammar * N)", [x for _, x in rnd], "rba_ok", shard=40, timeout=900)
+        if bad3 is not None:
+            chk.bump("explored grammars inside the class of the end-to-end theorem with explicit actions (reads_back_with_actions = true)",
+                     len(rnd) - len(bad3))
+            (common.GEN / "C01" / "rba_outside.json").write_text(json.dumps([rnd[i][0] for i in bad3], indent=1))
         plain = [rnd[i][0] for i in bad if "{" not in rnd[i][0]]
         chk.bump("action-free explored grammars outside that class", len(plain))
         (common.GEN / "C01" / "rb_outside.json").write_text(json.dumps(plain, indent=1))
